@@ -116,6 +116,14 @@ CLAIMED = {
             "included). integral() over several pieces and sampling are checked against Gauss–Legendre on the real class (partial).",
             "Piece-selection loop of integral() not proved; np.random trusted.",
             "DESIGN §6 C20"),
+    "C16": ("Lean 4 proof over a store of argument objects whose per-function write sites are *generated* from the source by an alias "
+            "analysis on every run: kernel-decided 'every write site belongs to a documented in-place routine' ⇒ any call history "
+            "leaves all argument objects unchanged (induction over the history) + dynamic call-history check with deep snapshots",
+            "Theorem C16_partial (all_sites_documented is re-decided on the regenerated table); histories of 2-8 constructor calls sharing "
+            "dicts, IMF objects, lists and arrays: arguments unchanged, results bit-identical to fresh builds, in-place routines return "
+            "their arrays.",
+            "Alias analysis is syntactic; hidden state in numpy/scipy trusted; dynamic check is sampling.",
+            "DESIGN §6 C16"),
 }
 
 NOT_YET = "check not built yet in this session (planned: see DESIGN §6); not claimed until its quick check is silent on the clean tree"
